@@ -23,7 +23,6 @@ Proof.
   assert (Hs1 : sh_skip_errored gen_shape = true) by reflexivity.
   assert (Hs2 : sh_reraise gen_shape = RrNameEq) by reflexivity.
   assert (Hs3 : sh_add_errored gen_shape = true) by reflexivity.
-  assert (Hs4 : forall a b c, eval_else (sh_else gen_shape) a b c = a && b && negb c) by (intros [] [] []; reflexivity).
   induction l as [|x rest IH]; intros idx; [reflexivity|].
   cbn [gen_process_chunk_loop1 pc_loop]. rewrite Hs1. cbn [andb].
   assert (Hrec : forall (x' : slot I),
@@ -38,9 +37,12 @@ Proof.
       destruct (name_is (s_name x) (w_expected w)); [reflexivity|].
       destruct (negb (truthy_optstr (w_expected w)));
         rewrite Hrec; destruct (pc_loop I eat complete fmatch gen_shape (w_expected w) (S idx) rest chunk) as [[l' tr] r]; reflexivity.
-    + rewrite Hs4.
-      destruct (name_is (s_name x) (w_expected w) && complete i' && negb (fmatch i')); [reflexivity|].
-      rewrite Hrec; destruct (pc_loop I eat complete fmatch gen_shape (w_expected w) (S idx) rest chunk) as [[l' tr] r]; reflexivity.
+    + (* the early-abort test: same truth table, whatever the order of the conjuncts *)
+      destruct (name_is (s_name x) (w_expected w)), (complete i'), (fmatch i');
+        match goal with |- context [eval_else ?l ?a ?b ?c] =>
+          let v := eval vm_compute in (eval_else l a b c) in change (eval_else l a b c) with v end;
+        cbn [andb orb negb]; try reflexivity;
+        rewrite Hrec; destruct (pc_loop I eat complete fmatch gen_shape (w_expected w) (S idx) rest chunk) as [[l' tr] r]; reflexivity.
 Qed.
 
 Theorem gen_process_chunk_equiv w chunk :
@@ -73,8 +75,8 @@ Proof.
   match goal with |- context [filter (fun v => negb (beq (s_name v) ?lit)) (w_slots w)] =>
     set (nr := filter (fun v => negb (beq (s_name v) lit)) (w_slots w)) end.
   set (ms := filter (fun v => fmatch (s_insp v)) nr).
-  destruct (negb (forallb (fun v => complete (s_insp v)) nr) && negb (w_finished w)); [reflexivity|].
-  destruct ms; reflexivity.
+  destruct (forallb (fun v => complete (s_insp v)) nr), (w_finished w); cbn [negb andb orb]; try reflexivity;
+    destruct ms; reflexivity.
 Qed.
 
 Theorem gen_format_equiv w :
